@@ -769,15 +769,15 @@ pub fn check(w: &LspWorld, sim: &SimResult, known: &KnownFindings, met: &mut Vec
   }
   // reference model: what the client sent
   let mut sessions: Vec<Session> = vec![Session::default(); w.uris.len()];
-  let mut sent: Vec<BTreeMap<i32, String>> = vec![BTreeMap::new(); w.uris.len()];
+  let mut sent: Vec<BTreeMap<i32, Vec<String>>> = vec![BTreeMap::new(); w.uris.len()];
   for m in &w.history {
     match m {
       Msg::Open { uri, version, text } => {
         sessions[*uri] = Session { open: true, version: *version, text: text.clone() };
-        sent[*uri].insert(*version, text.clone());
+        sent[*uri].entry(*version).or_default().push(text.clone());
       }
       Msg::Change { uri, version, text } => {
-        sent[*uri].entry(*version).or_insert_with(|| text.clone());
+        sent[*uri].entry(*version).or_default().push(text.clone());
         let s = &mut sessions[*uri];
         if s.open && *version >= s.version {
           s.version = *version;
@@ -797,18 +797,34 @@ pub fn check(w: &LspWorld, sim: &SimResult, known: &KnownFindings, met: &mut Vec
     let Some(v) = p.version else {
       return Ok(Some(("PUBLISH-WITHOUT-VERSION".into(), format!("diagnostics for {} carry no version", p.uri))));
     };
-    let Some(text) = sent[ui].get(&(v as i32)) else {
+    let Some(texts) = sent[ui].get(&(v as i32)) else {
       return Ok(Some(("PUBLISH-UNKNOWN-VERSION".into(), format!("diagnostics for {} carry version {v}, which the client never sent for it", short(&p.uri)))));
     };
-    let exp = expected_from_cli(&w.project, &cli_path(&w.uris[ui]), text, &mut cache)?;
-    if exp != p.diags && is_kf_unused(&p.diags, &exp) && known.is_open("C09", KF_UNUSED).is_some() {
+    // version numbers restart when a document is re-opened: the publish must fit one of the
+    // texts the client sent under that number
+    let mut ok = false;
+    let mut kf = false;
+    let mut first: Option<Vec<Diag>> = None;
+    for text in texts {
+      let exp = expected_from_cli(&w.project, &cli_path(&w.uris[ui]), text, &mut cache)?;
+      if exp == p.diags {
+        ok = true;
+      } else if is_kf_unused(&p.diags, &exp) && known.is_open("C09", KF_UNUSED).is_some() {
+        kf = true;
+      }
+      if first.is_none() {
+        first = Some(exp);
+      }
+    }
+    if !ok && kf {
       let line = format!("{KF_UNUSED} the server publishes no `unused-suppression` hint for a document no project rule applies to, `sg scan` does");
       if !met.contains(&line) {
         met.push(line);
       }
       continue;
     }
-    if exp != p.diags {
+    if !ok {
+      let exp = first.unwrap_or_default();
       return Ok(Some((
         "LSP-CLI-MISMATCH".into(),
         format!(
@@ -968,7 +984,11 @@ pub fn gen_world(seed: u64) -> LspWorld {
       12 | 13 => {
         history.push(Msg::Close { uri: u });
         open[u] = false;
-        top[u] += 1; // a re-open gets a version above everything seen
+        // The re-open gets a version above everything seen. Histories in which a re-opened
+        // document restarts its counter below versions of the closed session are outside the
+        // property's domain: its text ("highest-version text received") and the only tenable
+        // per-session reading diverge there (DESIGN.md 12.7).
+        top[u] += 1;
       }
       14 | 15 => history.push(Msg::Save { uri: u }),
       16 | 17 => history.push(Msg::CodeAction { uri: u }),
@@ -1011,10 +1031,28 @@ fn minimise(w: &LspWorld, script: &Script, seed: u64, class: &str, known: &Known
   if same(&w, &simple) {
     script = simple;
   }
+  // candidates must stay protocol-valid: no didOpen for a document that is already open
+  let valid = |h: &[Msg]| -> bool {
+    let mut open = std::collections::BTreeSet::new();
+    for m in h {
+      match m {
+        Msg::Open { uri, .. } => {
+          if !open.insert(*uri) {
+            return false;
+          }
+        }
+        Msg::Close { uri } => {
+          open.remove(uri);
+        }
+        _ => {}
+      }
+    }
+    true
+  };
   w.history = shrink::ddmin(&w.history, |h| {
     let mut w2 = w.clone();
     w2.history = h.to_vec();
-    same(&w2, &script)
+    valid(h) && same(&w2, &script)
   });
   // shorter script
   script.actions = shrink::ddmin(&script.actions, |a| {
